@@ -162,6 +162,7 @@ func (d *dbT) query(text string, xcol string) outcome {
 		}
 	})
 	if r.raised {
+		d.th = &core.Thread{} // the panic may have left frames / stack entries behind
 		r.strat = o.strat
 		return r
 	}
@@ -212,6 +213,8 @@ func (lf langFn) call(args ...core.Value) lres {
 		v = langTh.Call(lf.fn, args...)
 	})
 	if o.raised {
+		// a panic leaves the interpreter's value stack where it was: new thread
+		langTh = &core.Thread{}
 		return lres{raised: true, msg: o.msg}
 	}
 	if v == nil {
@@ -346,6 +349,50 @@ type walkT struct {
 	documented bool // "" ordered against a boolean or number
 	lossy      bool // F7: integer with > 16 digits compared with a close decimal
 	minusMin   bool // F2 through a - b evaluated as a + (-b): see c25_test.go
+	divFirst   bool // known finding const-numerator-division
+	negPrefix  bool // known finding negative-number-packed-prefix-order
+}
+
+// negPrefixPair: two negative numbers of which one packed form is a proper
+// prefix of the other (known finding negative-number-packed-prefix-order).
+func negPrefixPair(x, y core.Value) bool {
+	if x.Type() != types.Number || y.Type() != types.Number {
+		return false
+	}
+	px, py := core.Pack(x.(core.Packable)), core.Pack(y.(core.Packable))
+	if len(px) < 3 || len(py) < 3 || px[0] != core.PackMinus || py[0] != core.PackMinus || len(px) == len(py) {
+		return false
+	}
+	return strings.HasPrefix(px, py) || strings.HasPrefix(py, px)
+}
+
+// divisorFirst: the folder turns this * / chain into a Unary(Div) node or an
+// Nary whose first operand is one (asked of the real parser/folder).
+var divFirstCache = map[string]bool{}
+
+func divisorFirst(n *node) bool {
+	src := n.String()
+	r, ok := divFirstCache[src]
+	if !ok {
+		if len(divFirstCache) > 5000 {
+			divFirstCache = map[string]bool{}
+		}
+		func() {
+			defer func() { recover() }()
+			e := qry.NewQueryParser(src, nil, nil).Expression()
+			isDiv := func(e ast.Expr) bool {
+				u, ok := e.(*ast.Unary)
+				return ok && u.Tok == tok.Div
+			}
+			if nary, ok := e.(*ast.Nary); ok && nary.Tok == tok.Mul {
+				r = isDiv(nary.Exprs[0])
+			} else {
+				r = isDiv(e)
+			}
+		}()
+		divFirstCache[src] = r
+	}
+	return r
 }
 
 func isEmptyStr(v core.Value) bool {
@@ -399,6 +446,9 @@ func (w *walkT) pair(op string, constant bool, x, y core.Value) {
 	}
 	if isOrdOp(op) && documentedPair(x, y) {
 		w.documented = true
+	}
+	if isOrdOp(op) && negPrefixPair(x, y) {
+		w.negPrefix = true
 	}
 	if lossyPair(x, y) {
 		w.lossy = true
@@ -487,6 +537,9 @@ func (w *walkT) eval(n *node) (core.Value, bool) {
 			if sign == "-" && vals[i].Equal(minInt64Val) {
 				w.minusMin = true
 			}
+		}
+		if n.op == "chain*" && strings.Contains(n.signs, "/") && divisorFirst(n) {
+			w.divFirst = true
 		}
 		return w.call(sb.String(), vals...)
 	case "call":
